@@ -5,6 +5,7 @@ package main
 import (
 	"fmt"
 	"go/types"
+	"os"
 	"sort"
 	"strings"
 
@@ -175,6 +176,8 @@ type arrCopy struct {
 	arr    *Term
 	off    *Term
 	oldlen *Term
+	// optional second segment (append of a slice of symbolic length): elements [oldlen, oldlen+len2)
+	arr2, off2, len2 *Term
 }
 
 type Frame struct {
@@ -191,6 +194,7 @@ type Frame struct {
 	chain   string // inlining chain "f/g/h" used in obligation names
 	wm, wmpost *Term
 	mapLoops []*mapLoopInfo
+	unrolled map[*ssa.BasicBlock]bool // loop headers executed by unrolling (constant trip count)
 }
 
 type deferred struct {
@@ -200,6 +204,7 @@ type deferred struct {
 }
 
 type loopEntry struct {
+	traceLen    int
 	initVals    map[*ssa.Phi]Value
 	heapAtEntry Heap
 	phis        map[*ssa.Phi]Value
@@ -220,9 +225,11 @@ type State struct {
 }
 
 type Event struct {
-	Kind string // stdout | writefile | mkdir | create | exit | filewrite
+	Kind string // stdout | writefile | mkdir | create | exit | filewrite | call | impure
 	Args []*Term
+	Res  []*Term
 	Note string
+	Pre  *Heap // heap just before a recorded call
 }
 
 func (s *State) fork() *State {
@@ -269,6 +276,10 @@ func (s *State) assume(t *Term) {
 	}
 	if t == False {
 		s.dead = true
+		if os.Getenv("GOVERIF_DEBUG_DEAD") != "" && len(s.frames) > 0 {
+			f := s.top()
+			fmt.Fprintf(os.Stderr, "DEAD in %s block %d idx %d\n", f.fn, f.block.Index, f.idx)
+		}
 	}
 	if t.isOp("and") {
 		for _, a := range t.Args {
@@ -282,6 +293,10 @@ func (s *State) assume(t *Term) {
 		}
 		if p == Not(t) {
 			s.dead = true
+			if os.Getenv("GOVERIF_DEBUG_DEAD") != "" && len(s.frames) > 0 {
+				f := s.top()
+				fmt.Fprintf(os.Stderr, "DEAD(contradiction %s) in %s block %d idx %d\n", t, f.fn, f.block.Index, f.idx)
+			}
 		}
 	}
 	s.pc = append(s.pc, t)
@@ -397,7 +412,13 @@ func (s *State) plainBase(heap Heap, h HeapArr, slot string, sort Sort, addr []*
 		// object allocated after this base version was created: never written below this point
 		if cp, ok := s.copies[addr[0].I]; ok && len(addr) == 2 && strings.HasPrefix(slot, "elem(") {
 			inner := s.selectIn(cp.heap, slot, sort, []*Term{cp.arr, Add(cp.off, addr[1])})
-			return Ite(And(Le(Zero, addr[1]), Lt(addr[1], cp.oldlen)), inner, zeroOf(sort))
+			rest := zeroOf(sort)
+			if cp.arr2 != nil {
+				i2 := Sub(addr[1], cp.oldlen)
+				in2 := s.selectIn(cp.heap, slot, sort, []*Term{cp.arr2, Add(cp.off2, i2)})
+				rest = Ite(And(Le(cp.oldlen, addr[1]), Lt(i2, cp.len2)), in2, zeroOf(sort))
+			}
+			return Ite(And(Le(Zero, addr[1]), Lt(addr[1], cp.oldlen)), inner, rest)
 		}
 		return zeroOf(sort)
 	}
@@ -531,6 +552,8 @@ type Engine struct {
 	vacuity   []vacuityProbe
 	onReturn  func(fn *ssa.Function, r pathResult)
 	onExit    func(fn *ssa.Function, s *State)
+	pendingPre *Heap
+	globalPlaces map[string]*Term
 	detCur    *mapLoopInfo
 	curFramed bool
 	curExcept []frameExc
@@ -701,6 +724,11 @@ func (e *Engine) load(s *State, pl Place, t types.Type) Value {
 	l := e.layout(t)
 	v := make(Value, len(l))
 	for i, sl := range l {
+		if strings.HasPrefix(pl.Prefix, "opaque(") {
+			// embedded parts of runtime objects (parser -> BaseParser -> BaseRecognizer): pure function of the owner
+			v[i] = App("old."+pl.Prefix+sl.Suffix, sl.Sort, pl.Addr...)
+			continue
+		}
 		v[i] = s.sel(pl.Prefix+sl.Suffix, sl.Sort, pl.Addr)
 	}
 	e.typingAssume(s, t, v)
